@@ -322,12 +322,12 @@ def check_dynamics(case, ctx):
 
 
 SUBCHECKS = [
-    SubCheck("admit", check_admit, strategy=G.composed_systems(max_rxn=6), quick=2000, thorough=40000,
+    SubCheck("admit", check_admit, strategy=G.composed_systems(max_rxn=6), quick=2000, thorough=60000,
              rule="1-6 reactions, one of them possibly broken; constructor verdict, error message, check_balance, "
                   "composition_balance_vectors, charge/mass violation helpers",
              tolerances={"mass_balance_rel_sum_abs": TOL_MASS}),
     SubCheck("dynamics", check_dynamics, strategy=G.composed_systems(max_rxn=5, broken=False, kinetics=True), quick=400,
-             thorough=6000,
+             thorough=10000,
              rule="balanced systems with rate constants 1e-4..1e3, y0 in {0..3}: linear_invariants of both builders, "
                   "symbolic B*f == 0, scipy integration (atol=rtol=1e-9), linear_dependencies() and (preferred)",
              tolerances={"conservation_rel_absB_max_abs_y": TOL_CONSERVATION}),
